@@ -234,7 +234,7 @@ def model_parse_canon(ans, cls='inst'):
 
 LETTERS = 'abcdefghijklmnopqrstuvwxyzABCDEFGHIJKLMNOPQRSTUVWXYZ'
 NAME_EXTRA = '_0123456789'
-NONASCII_NAME = 'éÉüÜñÑλΛжЖ٣'          # all `\w`; lower() is character-wise for them
+NONASCII_NAME = 'éÉüÜñÑλΛжЖ٣ßẞſςµßẞ'    # all `\w`; lower() is character-wise for them; ß ẞ ſ ς µ: lower() != casefold()
 STR_SPECIAL = ['"', '\\', ',', '=', "'", ' ', ':', '/', '.', '-', '%', '\t', '\r', '*', '+', '@', '[', ']', '#', '?', 'é', 'λ', '€',
                '\u2028', '😀', '{', '}', '{0}', '{name}', '%s', '%(x)s']
 NS_TYPES = ['http', 'https', 'cimxml-wbem', 'cimxml-wbems', 'wbem', 'x-y']
@@ -961,6 +961,122 @@ def check_tabok_exhaustive(run):
         run.disagree({'kind': 'tabok'}, 'TabOkChar holds', bad[:20], 'character-table hypotheses of the theorems')
 
 
+# ----------------------------------------------------------------------------------------- histories on ONE object
+
+ROUTES = ['dict_set', 'dict_del', 'dict_update', 'dict_pop', 'setitem', 'delitem', 'update', 'host', 'namespace', 'classname',
+          'keybindings_setter']
+
+
+def clone_path(p):
+    """a fresh, structurally equal object (new objects at every nesting level; nothing cached on it)"""
+    import pywbem
+    return pywbem.CIMInstanceName(p.classname, [(k, clone_path(v) if isinstance(v, pywbem.CIMInstanceName) else v)
+                                                for k, v in p.keybindings.items()], host=p.host, namespace=p.namespace)
+
+
+def ref_trails(spec, trail=()):
+    out = [list(trail)]
+    for k, v in spec['keys']:
+        if v['t'] == 'ref':
+            out += ref_trails(v['v'], trail + (k,))
+    return out
+
+
+def g_ops(rng, spec):
+    ops = []
+    trails = ref_trails(spec)
+    for _ in range(rng.choice([1, 1, 2, 3])):
+        at = rng.choice(trails) if rng.random() < 0.6 else []
+        node = spec
+        for k in at:
+            node = dict(node['keys'])[k]['v']
+        names = [k for k, _ in node['keys']]
+        key = rng.choice(names + ['zz_new']) if names else 'zz_new'
+        if rng.random() < 0.3:
+            key = key.swapcase()
+        val = rng.choice([{'t': 'int', 'v': str(rng.randint(0, 99))}, {'t': 'str', 'v': g_string(rng)}, {'t': 'bool', 'v': True},
+                          {'t': 'uint8', 'v': '7'}])
+        ops.append({'route': rng.choice(ROUTES), 'at': at, 'key': key, 'val': val,
+                    'text': rng.choice(['Other', 'other.example:5989', 'root/other', 'X_' + g_name(rng)])})
+    return ops
+
+
+def apply_op(p, op):
+    """one mutation of the object p (or of a nested reference value reached through op['at']); False when not applicable"""
+    import pywbem
+    t = p
+    for k in op['at']:
+        t = t.keybindings.get(k)
+        if not isinstance(t, pywbem.CIMInstanceName):
+            return False
+    r, key, val = op['route'], op['key'], build_val(op['val'])
+    has = key in t.keybindings
+    if r == 'dict_set':
+        t.keybindings[key] = val
+    elif r == 'dict_del':
+        if not has or len(t.keybindings) < 2:
+            return False
+        del t.keybindings[key]
+    elif r == 'dict_update':
+        t.keybindings.update({key: val})
+    elif r == 'dict_pop':
+        if not has or len(t.keybindings) < 2:
+            return False
+        t.keybindings.pop(key)
+    elif r == 'setitem':
+        t[key] = val
+    elif r == 'delitem':
+        if not has or len(t.keybindings) < 2:
+            return False
+        del t[key]
+    elif r == 'update':
+        t.update({key: val})
+    elif r == 'host':
+        t.host = op['text']
+    elif r == 'namespace':
+        t.namespace = op['text']
+    elif r == 'classname':
+        t.classname = op['text'].replace('/', '_').replace('.', '_').replace(':', '_')
+    elif r == 'keybindings_setter':
+        t.keybindings = list(t.keybindings.items()) + [(key, val)]
+    return True
+
+
+def oracle_history(run, spec, ops, batch=None):
+    """print (all formats, str, hash), mutate the SAME object through one of the mutation routes (also of a nested reference
+    value), print again: the object must print exactly like a fresh structurally equal object — equal paths have identical
+    canonical URIs, and what is printed parses back to the path as it is now"""
+    import pywbem
+    case = {'kind': 'history', 'spec': spec, 'ops': ops}
+    with warnings.catch_warnings():
+        warnings.simplefilter('ignore')
+        p = build_path(spec)
+        for fmt in FMTS:
+            p.to_wbem_uri(format=fmt)
+        str(p), hash(p), repr(p)
+        for i, op in enumerate(ops):
+            try:
+                if not apply_op(p, op):
+                    continue
+            except Exception:  # noqa  (a mutation the API refuses)
+                continue
+            fresh = clone_path(p)
+            run.count('history:' + op['route'] + ('@nested' if op['at'] else ''))
+            for fmt in FMTS:
+                a, b = p.to_wbem_uri(format=fmt), fresh.to_wbem_uri(format=fmt)
+                if a != b:
+                    run.violate({'kind': 'printed_uri_stale_after_mutation', 'fmt': fmt, 'route': op['route'], 'nested': bool(op['at'])},
+                                case, {'step': i, 'printed': a, 'fresh_equal_object_prints': b})
+                    return
+            if str(p) != str(fresh) or hash(p) != hash(fresh) or not (has_nan(p) or p == fresh):
+                run.violate({'kind': 'object_differs_from_fresh_equal_object_after_mutation', 'route': op['route'], 'nested': bool(op['at'])},
+                            case, {'step': i, 'str': str(p), 'fresh': str(fresh)})
+                return
+            if batch is not None:
+                batch.add({'op': 'to', 'fmt': 'canonical', 'path': model_path(p), 'tab': tab_for(*path_texts(p, []))}, 'to',
+                          {'kind': 'history', 'spec': spec, 'ops': ops[:i + 1]}, p.to_wbem_uri(format='canonical'))
+
+
 class Batch:
     """requests for the model driver, flushed in chunks so that the thorough tier stays within memory"""
 
@@ -1178,6 +1294,9 @@ def run(run):
                 '(path, path changed in one place: host/namespace/class/key set/key name/one value incl. bool<->int, -0.0, time zone), both directions; '
                 'glue: format-argument validation (12 names), __str__, get_cimobject_header (instance / class / str / other types), the '
                 'constructor (namespace with slashes, key lists with case-duplicate names) against the model; '
+                'histories on one object (n/4): print in all formats / str / hash, mutate through one of 11 routes (keybindings dict set/del/update/pop, '
+                '__setitem__/__delitem__/update(), host/namespace/classname/keybindings setters; 60 % on a nested reference value), print again and '
+                'compare with a fresh structurally equal object; names include letters whose lower() and casefold() differ (ß ẞ ſ ς µ); '
                 'literal recognisers on near-miss literals; '
                 'a path case is non-trivial when it has >= 1 keybinding, a text case when one of the two parsers accepts it')
     run.assumptions += [
@@ -1201,6 +1320,16 @@ def run(run):
         spec = {'host': None, 'ns': 'root', 'cls': 'C', 'keys': [['k', {'t': 'str', 'v': sv}]]}
         do_path(run, batch, spec, None, None, rng, stats=False)
         run.count('sweep:string')
+
+    # ---- histories on one object: print, mutate (every route, also nested reference values), print again
+    for i in range(n_paths // 4):
+        spec = g_path(rng, rng.choice([1, 1, 2, 3]), {})
+        if spec['host'] is not None and spec['ns'] is None:
+            spec['ns'] = 'root'
+        if not spec['keys']:
+            continue
+        oracle_history(run, spec, g_ops(rng, spec), batch)
+        run.case({'history': spec}, nontrivial=True)
 
     # ---- class paths
     for i in range(n_cpaths):
@@ -1245,6 +1374,8 @@ def search(run):
                                    'cls': swapcase_safe(cs['cls'], rng)})
         for _ in range(6):
             oracle_text(run, g_text(rng, pool))
+        if i % 4 == 0 and spec['keys']:
+            oracle_history(run, spec, g_ops(rng, spec))
         if i % 50 == 0 and fresh():
             break
     return fresh()
@@ -1259,6 +1390,8 @@ def replay(payload):
         oracle_cpath(r, case['spec'], case.get('variant'))
     elif case['kind'] == 'text':
         oracle_text(r, case['text'])
+    elif case['kind'] == 'history':
+        oracle_history(r, case['spec'], case['ops'])
     else:
         return True, 'case kind %r carries no property check (correspondence-only case)' % case['kind']
     if r.violations:
